@@ -825,7 +825,23 @@ func (g *gen) doMon(prompt bool) bool {
 	return true
 }
 
-func generate(rng *rand.Rand, steps int, profile string, hosts []string) ([]string, []string, map[string]bool) {
+// generate runs one sequence.  A panic inside the controller (an index out of range, a division by
+// zero in the fan-out) must not take the harness down: the sequence ends there, the last line says
+// so, and the model — which never panics — disagrees with it, so the sequence becomes the replay.
+func generate(rng *rand.Rand, steps int, profile string, hosts []string) (lines []string, outs []string, feat map[string]bool) {
+	var g *gen
+	defer func() {
+		if r := recover(); r != nil && g != nil {
+			msg := strings.SplitN(fmt.Sprint(r), "\n", 2)[0]
+			lines = append(g.lines, "panic")
+			outs = append(g.outs, "the controller panicked in the request that followed: "+msg)
+			feat = g.feat
+		}
+	}()
+	return generateInner(rng, steps, profile, hosts, &g)
+}
+
+func generateInner(rng *rand.Rand, steps int, profile string, hosts []string, gp **gen) ([]string, []string, map[string]bool) {
 	rf := 1 + rng.Intn(5)
 	if rng.Intn(3) == 0 {
 		rf = 3
@@ -833,6 +849,7 @@ func generate(rng *rand.Rand, steps int, profile string, hosts []string) ([]stri
 	im := newImpl(rf, hosts)
 	im.fired = map[*fake.Backend]bool{}
 	g := &gen{im: im, rng: rng, feat: map[string]bool{}}
+	*gp = g
 	g.lines = append(g.lines, fmt.Sprintf("init %d", rf))
 	g.outs = append(g.outs, "ok")
 	g.feat[fmt.Sprintf("rf%d", rf)] = true
